@@ -40,6 +40,12 @@ func vC01Mk[T vScalar]() (t *Dense, want []T, shape []int, ok bool) {
 	case "fraw":
 		t = New(WithShape(pshape...), WithBacking(b), AsFortran(nil))
 		vForCoords(pshape, func(c []int) { logical[vRowRank(pshape, c)] = b[vColRank(pshape, c)] })
+	case "fraw2": // the same tensor with the construction options in another order (the shape is set on a column-major AP)
+		t = New(WithBacking(b), AsFortran(nil), WithShape(pshape...))
+		vForCoords(pshape, func(c []int) { logical[vRowRank(pshape, c)] = b[vColRank(pshape, c)] })
+	case "fraw3":
+		t = New(AsFortran(nil), WithShape(pshape...), WithBacking(b))
+		vForCoords(pshape, func(c []int) { logical[vRowRank(pshape, c)] = b[vColRank(pshape, c)] })
 	case "fconv":
 		orig := make([]T, n)
 		copy(orig, b)
@@ -61,6 +67,20 @@ func vC01Mk[T vScalar]() (t *Dense, want []T, shape []int, ok bool) {
 		nw := make([]T, n)
 		vForCoords(nshape, func(c []int) { nw[vRowRank(nshape, c)] = want[vRowRank(shape, vReverseInts(c))] })
 		shape, want = nshape, nw
+	}
+	if lay == "PP" {
+		// two successive lazy transposes by the same axis rotation (not each other's inverse for rank >= 3)
+		r := len(shape)
+		p := make([]int, r)
+		for i := range p {
+			p[i] = (i + 1) % r
+		}
+		for k := 0; k < 2; k++ {
+			if err := t.T(p...); err != nil {
+				panic("T failed")
+			}
+			want, shape = vPermApply(want, shape, p)
+		}
 	}
 	if lay == "S" || lay == "TS" {
 		// interior window [1:dim) on axis 0 (requires dim0 >= 2)
